@@ -912,7 +912,44 @@ async fn converse<D: Drv>(sh: Sh, mut d: D, mut peer: ChannelBuffer, known: std:
                     }
                 }
             }
-            let res = d.hl_send(k, m).await;
+            // A caller may give up on a send (time-out, select! branch): the future is polled once and, if
+            // still pending, dropped. Either the message is not on the wire and the agent has not moved, or
+            // it is on the wire and the agent is in the successor state - never one without the other.
+            let mut early: Option<R> = None;
+            // (a second copy of the message through its own codec: not every message type is Clone)
+            let copy = m.encode().ok().filter(|b| b.len() < 60_000).and_then(|b| M1::decode(p, &b).ok());
+            if let Some(m2) = copy.filter(|_| want.is_some() && chance(&sh, "conv.cancel_send", 1, 4)) {
+                inc(&sh, "fault.send_polled_once_then_dropped_if_pending");
+                let polled = {
+                    let fut = d.hl_send(k, m2);
+                    tokio::pin!(fut);
+                    futures::poll!(fut.as_mut())
+                };
+                match polled {
+                    std::task::Poll::Ready(r) => early = Some(r),
+                    std::task::Poll::Pending => {
+                        inc(&sh, "probe.send_future_was_pending_and_dropped");
+                        let delivered = matches!(tokio::time::timeout(Duration::from_millis(500), recv1(p, &mut peer)).await, Ok(Ok(_)));
+                        let n = want.unwrap();
+                        match (delivered, d.class()) {
+                            (true, c) if c == n => continue,
+                            (true, c) => {
+                                report!(Violation::new("state", format!("{tag}:cancelled-send-delivered-but-state-{}", spec.sname(c)), format!("{tag}: the send future was dropped after one poll; the message reached the peer but the agent is in {} instead of {}", spec.sname(c), spec.sname(n))));
+                                break 'conv;
+                            }
+                            (false, c) if c == s => {}
+                            (false, c) => {
+                                report!(Violation::new("state", format!("{tag}:cancelled-send-not-delivered-but-state-{}", spec.sname(c)), format!("{tag}: the send future was dropped after one poll; nothing reached the peer but the agent moved to {}", spec.sname(c))));
+                                break 'conv;
+                            }
+                        }
+                    }
+                }
+            }
+            let res = match early {
+                Some(r) => r,
+                None => d.hl_send(k, m).await,
+            };
             let Some(res) = res else {
                 // no high-level method for this move; if it is a terminal legal move the conversation ends here
                 inc(&sh, "probe.no_high_level_method");
@@ -1081,7 +1118,7 @@ pub fn def() -> CheckDef {
             "agents whose send_message/recv_message are private (chainsync server recv, local-tx-submission) are judged through their high-level methods only",
             "tx-monitor MsgAwaitAcquire/MsgAcquire in Acquired are don't-care (shared wire encoding)",
         ],
-        required: vec!["probe.raw_send_verdicts", "probe.raw_recv_verdicts", "probe.high_level_moves", "fault.illegal_local_move_rejected", "fault.byzantine_peer_message_rejected", "fault.keepalive_wrong_cookie"],
+        required: vec!["probe.raw_send_verdicts", "probe.raw_recv_verdicts", "probe.high_level_moves", "fault.illegal_local_move_rejected", "fault.byzantine_peer_message_rejected", "fault.keepalive_wrong_cookie", "fault.send_polled_once_then_dropped_if_pending"],
         env_nondeterminism: "pipe scheduling (stalls, short reads, capacities) between the two real multiplexers; conversation path incl. Byzantine moves",
     }
 }
